@@ -64,6 +64,14 @@ def gen_cases(tier, seed):
                 ops = ["N:1", "%s:%d" % cs] + stages + ["%s:%d" % cs, "N:1"]
                 cases.append({"id": cid, "chain": chain, "ops": ops, "term": term, "nt": 1, "cs": cs, "m": m, "src": "endless", "big": 0})
                 cid += 1
+    # the match is the very first element (what a worker pulls first)
+    for chain in CHAINS:
+        for (nt, cs) in [(2, ("C", 2)), (4, ("C", 4)), (3, ("Cm", 2)), (1, ("C", 3))]:
+            stages = [{"M": "M:1:0", "F": "Fa", "X": "X:2:100000", "O": "O:2:0:1:0"}[s_] for s_ in chain]
+            term = "%s:F:120000:0" % (["find", "any"][cid % 2])
+            ops = ["N:%d" % nt, "%s:%d" % cs] + stages + ["%s:%d" % cs, "N:%d" % nt]
+            cases.append({"id": cid, "chain": chain, "ops": ops, "term": term, "nt": nt, "cs": cs, "m": 0, "src": "endless", "big": 0})
+            cid += 1
     # the same chains in parallel on the endless source
     for chain in CHAINS:
         for (nt, cs) in [(4, ("C", 1)), (3, ("C", 4)), (0, ("Cm", 2))]:
